@@ -378,6 +378,7 @@ class Flags:
         permute_considered=True,
         listops=True,  # ListSizeBetween (with custom mutate/crossover) vs LSBWLO only
         nested_generics=True,  # list[Union[..]], list[tuple[..]]
+        self_refs=True,  # Union[Self, other]
         unproductive=False,  # a reachable non-terminal that cannot derive any finite program
     )
 
@@ -503,7 +504,10 @@ def _leaf_field(draw, fl: Flags):
     if fl.class_fields_only:
         raise AssertionError("no leaf fields in class-only mode")
     if _has_lists(fl) and draw(st.integers(0, 4)) == 0:
-        return draw(_list_of(fl, draw(_base_type(fl))))
+        inner = draw(_base_type(fl))
+        if fl.nested_generics and draw(st.integers(0, 3)) == 0:
+            inner = draw(_list_of(fl, inner))  # list of lists
+        return draw(_list_of(fl, inner))
     if fl.tuples and draw(st.integers(0, 7)) == 0:
         return ["tuple", [draw(_base_type(fl)), draw(_base_type(fl))]]
     return draw(_base_type(fl))
@@ -614,6 +618,14 @@ def specs(draw, fl: Flags | None = None):
                 t = draw(_leaf_field(fl))
             fields.append([f"f{j}", t])
         c = new_conc(parent, fields)
+        if fl.unions and fl.self_refs and not fl.class_fields_only and fields and draw(st.integers(0, 5)) == 0:
+            # a production that refers to ITSELF directly, inside a union with a productive alternative
+            j = draw(st.integers(0, len(fields) - 1))
+            other = draw(st.sampled_from(targets).map(lambda n: ["ref", n])) if draw(st.booleans()) else draw(_base_type(fl))
+            alts = [["ref", c["name"]], other]
+            if draw(st.booleans()):
+                alts.reverse()
+            fields[j] = [fields[j][0], ["union", alts]]
         # dependent refinements: rewrite a later field to depend on an earlier int field
         if fl.dependent and len(fields) >= 1 and draw(st.booleans()):
             kind = draw(st.sampled_from(["intrange_from", "varrange_prefix", "listsize_upto"] if _has_lists(fl) else ["intrange_from", "varrange_prefix"]))
@@ -649,7 +661,9 @@ def specs(draw, fl: Flags | None = None):
         # U0 -> CU0(f0: U0) only: legal declarations, but U0 derives no finite program; CU1 makes it
         # reachable from a productive non-terminal (the library gives such symbols distance 1000000)
         abstracts.append({"name": "U0", "parent": None, "style": "decorator"})
-        concretes.append({"name": "CU0", "parent": "U0", "weight": None, "fields": [["f0", ["ref", "U0"]]]})
+        if draw(st.booleans()):
+            concretes.append({"name": "CU0", "parent": "U0", "weight": None, "fields": [["f0", ["ref", "U0"]]]})
+        # (otherwise U0 is an abstract type without any production at all)
         concretes.append({"name": "CU1", "parent": draw(st.sampled_from(abs_names)), "weight": None, "fields": [["f0", ["ref", "U0"]]]})
     if fl.weights:
         for c in concretes:
